@@ -4,7 +4,7 @@ Suspension is an ordinary future job (kind `susp`): it signals the resumer hand-
 awaits the resume channel, so the property is a corollary of the queue protocol (C01, C02, C06).
 -/
 import DesyncModel.Spec
-import DesyncModel.Tables
+import DesyncModel.Tables.Wake
 import DesyncModel.Lemmas
 import DesyncModel.Setters
 
